@@ -3,7 +3,7 @@
 
    Model:   objective (a record [id, deg, nc]: identity, polynomial degree class 1 | 2 | 9 (higher or
             non-polynomial), whether a non-continuous variable occurs), sense, constraints (records
-            [id, deg, eq]), a bounds version and a parameter version (both mutable from outside the
+            [id, deg, eq, nc]), a bounds version and a parameter version (both mutable from outside the
             Problem).
    Caches:  the four per-problem caches of problem.py (+ the lazily inserted Hessian), each None or a
             snapshot of exactly the model components it was computed from.
@@ -21,6 +21,8 @@ CONSTANTS
     ConRecs,            \* constraint records offered to the model checker
     MaxCons,            \* bound on the number of constraints (model checking only)
     Methods,            \* methods offered to the model checker
+    FaultExcs,          \* exception classes the environment may raise inside the solver (model checking)
+    OnlySuccess,        \* TRUE: the environment only returns "converged at a feasible point" (history graphs)
     EditInvalidates,    \* minimize / maximize / subject_to drop every derived cache      (intended TRUE)
     BoundsLive,         \* bounds are read when a solve starts, not from a snapshot        (intended TRUE)
     ParamsLive,         \* parameters are read when a callable runs, never snapshotted     (intended TRUE)
@@ -40,6 +42,7 @@ Msgs           == {"ok", "maxiter", "infeasible", "pdd", "other"}
 XClasses       == {"feas", "viol_con", "viol_bnd"}
 Excs           == {"ValueError", "FloatingPointError", "MemoryError", "KeyboardInterrupt"}
 IsException(e) == e # "KeyboardInterrupt"          \* subclasses of Exception are caught; BaseException propagates
+StageExcs      == {"StageError"}      \* model-checking stand-in; traces carry the real class name
 Statuses       == {"optimal", "infeasible", "unbounded", "max_iterations", "failed"}
 
 VARIABLES obj, sense, cons, bver, pver,           \* the model
@@ -67,7 +70,7 @@ InputsFrom(c) == [s |-> c.s, b |-> IF BoundsLive THEN bver ELSE c.b, p |-> IF Pa
 (* ---------------------------------------------------------------- model attributes driving control flow *)
 MaxConDeg == IF cons = <<>> THEN 0 ELSE CHOOSE d \in {cons[i].deg : i \in 1..Len(cons)} : \A i \in 1..Len(cons) : cons[i].deg <= d
 ModelLinear(o, cs) == o.deg <= 1 /\ \A i \in 1..Len(cs) : cs[i].deg <= 1
-NonContinuous == obj.nc
+NonContinuous == obj.nc \/ \E i \in 1..Len(cons) : cons[i].nc
 \* the auto-method decision tree of Problem._auto_select_method
 AutoMethod == IF cons = <<>> THEN "L-BFGS-B"
               ELSE IF obj.deg > 2 THEN "trust-constr"
@@ -150,12 +153,24 @@ Fill ==
             /\ cSolver' = cSolver
             /\ call' = [call EXCEPT !.rebuilt = IsNone(cLP)]
             /\ pc' = "solver"
-       ELSE /\ cSolver' = (LET base == IF IsNone(cSolver) THEN [snap |-> SnapSolver, hess |-> FALSE] ELSE cSolver
-                           IN [base EXCEPT !.hess = @ \/ call.method \in HessianMethods])
+       ELSE /\ cSolver' = (IF IsNone(cSolver) THEN [snap |-> SnapSolver, hess |-> FALSE] ELSE cSolver)
             /\ cLP' = cLP
             /\ call' = [call EXCEPT !.rebuilt = IsNone(cSolver)]
-            /\ pc' = "swap"
+            /\ pc' = "hess"
     /\ UNCHANGED <<cVars, cLin>> /\ UNCHANGED modelVars /\ UNCHANGED <<hook, res, fault, out>>
+
+\* the Hessian is compiled lazily, the first time a method that uses it runs on this cache
+LazyHess ==
+    /\ pc = "hess"
+    /\ cSolver' = [cSolver EXCEPT !.hess = @ \/ call.method \in HessianMethods]
+    /\ pc' = "swap"
+    /\ UNCHANGED <<cVars, cLP, cLin>> /\ UNCHANGED modelVars /\ UNCHANGED <<hook, call, res, fault, out>>
+
+\* building an artefact (variable discovery, compilation, LP extraction) may itself fail: the exception
+\* reaches the caller (possibly wrapped), no solver is entered, nothing global has been touched yet
+StageRaises(e) ==
+    /\ pc \in {"vars", "fill", "hess"} /\ Raise(e)
+    /\ UNCHANGED modelVars /\ KeepCaches /\ UNCHANGED <<hook, call, res, fault>>
 
 HookSwap ==
     /\ pc = "swap" /\ hook' = "handler" /\ pc' = "solver"
@@ -205,12 +220,12 @@ Allowed(r) == IF r.x # "feas" THEN (IF FeasCheckAlways THEN Statuses \ {"optimal
               ELSE Statuses
 Post ==
     /\ pc = "post"
-    /\ IF res.success /\ res.x = "viol_con" /\ call.method = "SLSQP" /\ ~call.retried
-       THEN \* SLSQP claimed success at an infeasible point: retry with trust-constr (a recursive solve)
-            /\ call' = [call EXCEPT !.method = "trust-constr", !.retried = TRUE]
-            /\ pc' = "vars" /\ out' = out
-       ELSE /\ \E st \in Allowed(res) : out' = [kind |-> "solution", status |-> st, x |-> res.x]
-            /\ pc' = "done" /\ call' = call
+    /\ \/ \* SLSQP claimed success at an infeasible point: it may be retried with trust-constr (a recursive solve)
+          /\ res.success /\ res.x # "feas" /\ call.method = "SLSQP" /\ ~call.retried
+          /\ call' = [call EXCEPT !.method = "trust-constr", !.retried = TRUE]
+          /\ pc' = "vars" /\ out' = out
+       \/ /\ \E st \in Allowed(res) : out' = [kind |-> "solution", status |-> st, x |-> res.x]
+          /\ pc' = "done" /\ call' = call
     /\ UNCHANGED modelVars /\ KeepCaches /\ UNCHANGED <<hook, res, fault>>
 
 \* LP route: status mapping is exact (C08)
@@ -236,7 +251,8 @@ LpOutcomes  == {r \in [success : BOOLEAN, msg : {"ok"}, x : XClasses, lp : 0..4]
                     /\ (r.success <=> r.lp = 0)
                     /\ (r.success => r.x = "feas")               \* HiGHS success is trusted (level_note)
                     /\ (cons = <<>> => r.x # "viol_con")}
-Outcomes == IF call.route = "lp" THEN LpOutcomes ELSE NlpOutcomes
+Outcomes == LET all == IF call.route = "lp" THEN LpOutcomes ELSE NlpOutcomes
+            IN IF OnlySuccess THEN {r \in all : r.success /\ r.x = "feas"} ELSE all
 
 Next ==
     \/ \E o \in ObjRecs, s \in {"minimize", "maximize"} : SetObjective(o, s)
@@ -244,10 +260,11 @@ Next ==
     \/ \E c \in ConRecs, d \in ConRecs : Len(cons) + 1 < MaxCons /\ c.id < d.id /\ SubjectTo(<<c, d>>)
     \/ SetBound \/ SetParam \/ ReadVars
     \/ \E m \in Methods, st \in BOOLEAN : SolveBegin(m, st)
-    \/ Route \/ Vars \/ Gate \/ Fill \/ HookSwap
+    \/ Route \/ Vars \/ Gate \/ Fill \/ LazyHess \/ HookSwap
     \/ \E r \in Outcomes : SolverReturns(r)
-    \/ \E e \in Excs : SolverRaises(e)
+    \/ \E e \in FaultExcs : SolverRaises(e)
     \/ Except \/ Finally \/ Post \/ LPReturn \/ Return
+    \/ \E e \in StageExcs : StageRaises(e)
 
 Init == /\ obj = NoObj /\ sense = "minimize" /\ cons = <<>> /\ bver = 0 /\ pver = 0
         /\ cVars = None /\ cSolver = None /\ cLP = None /\ cLin = None
@@ -276,8 +293,8 @@ C06_OptimalFeasible == (pc = "done" /\ out.kind = "solution" /\ out.status = "op
 C20_GlobalsRestored == pc \in {"idle", "done"} => hook = "orig"
 \* C20: a fault leaves the caches coherent (so the next solve is a fresh one) - part of C13_CachesCoherent;
 \*      additionally a caught fault returns FAILED and an uncaught one propagates
-C20_FaultOutcome == (pc = "done" /\ out.kind = "raised" /\ out.exc \in Excs) => ~IsException(out.exc)
+C20_FaultOutcome == (pc = "done" /\ call.entries > 0 /\ out.kind = "raised" /\ out.exc \in Excs) => ~IsException(out.exc)
 C20_FaultKeepsCaches == [][(pc = "solver" /\ fault' # "none") => UNCHANGED cacheVars]_vars
-TypeOK == /\ pc \in {"idle", "route", "vars", "gate", "fill", "swap", "solver", "except", "finally", "post", "lpstatus", "done"}
+TypeOK == /\ pc \in {"idle", "route", "vars", "gate", "fill", "hess", "swap", "solver", "except", "finally", "post", "lpstatus", "done"}
           /\ hook \in {"orig", "handler"} /\ bver \in {0, 1} /\ pver \in {0, 1}
 =============================================================================
